@@ -12,6 +12,8 @@ CONSTANTS
   WithCrash = TRUE
   WithRepoOps = TRUE
   WithSquash = TRUE
+  LabelW = 2
+  Script = "none"
   Ops = {"label", "delete", "diff", "download", "keys", "update"}
 INVARIANTS TypeOK VisibleComplete LabelsResolve SquashKeepsLatest
 CONSTRAINT Dump
